@@ -4,7 +4,7 @@ from props.common import TRUSTED_BASE, ASSUMPTIONS as _A
 
 ID = 'C01'
 LEAN_MODULES = ['HidVerif.Props.C01']
-THEOREMS = ['HidVerif.Props.C01.trace_unique', 'HidVerif.Props.C01.arith_map_sound', 'HidVerif.Props.C01.compare_map_sound',
+THEOREMS = ['HidVerif.Props.C01.core_semantic_preservation', 'HidVerif.Props.C01.core_expression_correct', 'HidVerif.Props.C01.trace_unique', 'HidVerif.Props.C01.arith_map_sound', 'HidVerif.Props.C01.compare_map_sound',
             'HidVerif.Props.C01.win_reach', 'HidVerif.Props.C01.vm_verdict_sound', 'HidVerif.Props.C01.interp_verdict_sound',
             'HidVerif.PSys.cstep_halts_iff', 'HidVerif.PSys.run_sound']
 TRUSTED = TRUSTED_BASE
@@ -27,6 +27,7 @@ def run(ctx):
         jobs += j
         for k, v in st.items(): stats[k] = stats.get(k, 0) + v
     ctx.stats['generator_distribution'] = stats
+    jobs += suites.core_suite(ctx, ctx.budget(240, 4000))
     suites.differential(ctx, jobs, None, label='sequential', must_compile=True)
     ctx.samples.append(dict(generated_program=jobs[-1][1][:1500], args=jobs[-1][2], w=jobs[-1][3]))
 
